@@ -22,7 +22,7 @@ def load():
     ms = []
     d = os.path.join(VERIF, "selftest")
     for fn in sorted(os.listdir(d)):
-        if fn.endswith(".json"):
+        if fn.endswith(".json") and fn != "last_results.json":
             ms += json.load(open(os.path.join(d, fn)))
     return ms
 
@@ -116,6 +116,11 @@ def main(argv):
     sil = sum(1 for r in results if r["outcome"] == "silent")
     eq = sum(1 for r in results if r["equivalent"] and r["outcome"] != "not-applicable")
     print("mutants detected %d/%d; equivalent edits silent %d/%d" % (det, tot, sil, eq))
+    if not ids:
+        # full run: keep the outcome table for DESIGN.md (not evidence)
+        json.dump({"results": [{k: r.get(k) for k in ("id", "property", "what", "outcome", "equivalent")}
+                               for r in results]},
+                  open(os.path.join(VERIF, "selftest", "last_results.json"), "w"), indent=1)
     return results
 
 
